@@ -214,10 +214,12 @@ def _c13_pton_jobs(tier, seed):
         j = _c12_job(zp, 4 if tier == "quick" else None, False, solver=("minisat" if tier == "quick" else "kissat"), core=True)
         j["id"] = "C13.pton_cidr.zp%02x%s" % (zp, ".d4" if tier == "quick" else ".full"); j["prop"] = "C13"; j["entry"] = "h_pton_cidr"
         out.append(j)
-    j = _c12_job(0, None, False, solver="minisat", core=True)
-    j["id"] = "C13.pton_wild"; j["prop"] = "C13"; j["entry"] = "h_pton_wild"; j["defines"] = []
-    j["unwind_rules"] = MISC_UNWIND + [("h_pton_wild", r"", 9)]
-    out.append(j)
+    for wg in ((1, 3, 7) if tier == "quick" else range(1, 8)):
+        j = _c12_job(0, None, False, solver="minisat", core=True)
+        j["id"] = "C13.pton_wild.g%d" % wg; j["prop"] = "C13"; j["entry"] = "h_pton_wild"; j["defines"] = ["WG=%d" % wg]
+        j["unwind_rules"] = MISC_UNWIND + [("h_pton_wild", r"", 9)]
+        j["cost"] = 20
+        out.append(j)
     return out
 
 
@@ -267,7 +269,7 @@ def IJ(id, prop, entry, remove, harness="harness/h_iauth_core.c", extra_props=()
     d = dict(id=id, prop=prop, cls="proof", srcs=IAUTH_SRCS, stubs=IAUTH_STUBS, harness=harness, entry=entry,
              remove_bodies=list(remove), late_stubs=TRAMP, replaced_models=list(remove),
              checks=["ptr", "ovf", "shift"], cbmc=base + kw.pop("cbmc", []), timeout=900, cost=2,
-             unwind_rules=IAUTH_RULES + kw.pop("unwind_rules", []), unwind_rules_optional=True)
+             unwind_rules=kw.pop("unwind_rules", []) + IAUTH_RULES, unwind_rules_optional=True)
     d.update(kw)
     d["replace_doc"] = list(remove)
     J(**d)
@@ -455,16 +457,17 @@ PROPS["C16"] = dict(level="model_checking", explanation="typed value parsers aga
 IJ("C06.xq_password", "C06", "h_xq_password", XQ_CALLEES + ["iauth_xquery_check"], harness="harness/h_iauth_xq.c", functions=["iauth_xquery_password", "iauth_xquery_check_password"],
    extra_props=("C02",), cbmc=["--unwind", "4", "--unwindset", "model_x_query.0:13,model_x_query.1:12,strcmp.0:5,strchr.0:13,strncpy.0:513,spec_pw_shape.0:13,spec_pw_shape.1:13,spec_pw_shape.2:13,iauth_xquery_check_password.0:13,iauth_xquery_check_password.1:13,iauth_xquery_check_password.2:13,iauth_xquery_check_password.3:13,h_xq_password.0:13"],
    unwind_rules=[("iauth_xquery_password", r"for \(ii = 0", 3)], assumptions=SET_ASSUME, bound="service table of 2 slots, password text of <= 10 bytes", cls="bounded", timeout=2400, cost=10, defines=["NSRV=2"])
-CJ("C16.typed_values.len7", "C16", "h_typed_values", functions=["conf_parse_boolean", "conf_parse_interval", "conf_parse_volume"], bound="value text of <= 7 bytes",
+CFG_NATIVE = dict(stubs=["stubs/tramp_set.c", "stubs/native_cfg.c"], libs=["-levent"])
+CJ("C16.typed_values.len7", "C16", "h_typed_values", functions=["conf_parse_boolean", "conf_parse_interval", "conf_parse_volume"], bound="value text of <= 7 bytes", replay=CFG_NATIVE,
    cbmc=["--unwindset", "strcmp.0:10"])
-CJ("C16.string_value.len7", "C16", "h_string_value", functions=["conf_parse_string_value"], extra_props=("C15",), bound="value text of <= 7 bytes", cbmc=["--unwindset", "strcmp.0:10,memcmp.0:10"])
-CJ("C15.string_list.len3", "C15", "h_string_list_value", functions=["conf_set_string_list_value"], extra_props=("C16",), bound="lists of <= 3 one-byte items")
+CJ("C16.string_value.len7", "C16", "h_string_value", functions=["conf_parse_string_value"], replay=CFG_NATIVE, extra_props=("C15",), bound="value text of <= 7 bytes", cbmc=["--unwindset", "strcmp.0:10,memcmp.0:10"])
+CJ("C15.string_list.len3", "C15", "h_string_list_value", functions=["conf_set_string_list_value"], replay=CFG_NATIVE, extra_props=("C16",), bound="lists of <= 3 one-byte items")
 CJ("C14.conf_read", "C14", "h_conf_read", remove=["conf_read_file", "conf_parse_entry", "conf_replace_value"], functions=["conf_read"], extra_props=("C15",),
    cls="proof", bound="")
 CJ("C14.parse_string.len8", "C14", "h_parse_string", remove=["xmalloc", "xrealloc"], late_stubs=["stubs/tramp_config.c", "stubs/xmalloc_small.c"],
-   functions=["conf_parse_string", "conf_parse_whitespace"], extra_props=("C16",), bound="file buffers of <= 8 bytes",
+   functions=["conf_parse_string", "conf_parse_whitespace"], extra_props=("C16",), bound="file buffers of <= 8 bytes", replay=CFG_NATIVE,
    cbmc=["--unwindset", "memset.0:40"], defines=["TOK_LEN=8"], mem=16, solver="minisat")
-CJ("C14.parse_whitespace.len8", "C14", "h_parse_whitespace", functions=["conf_parse_whitespace"], extra_props=("C16",), bound="file buffers of <= 8 bytes")
+CJ("C14.parse_whitespace.len8", "C14", "h_parse_whitespace", functions=["conf_parse_whitespace"], replay=CFG_NATIVE, extra_props=("C16",), bound="file buffers of <= 8 bytes")
 CJ("C15.replace_inaddr", "C15", "h_replace_inaddr", functions=["conf_replace_value"], extra_props=("C14",), bound="", cls="proof",
    cbmc=["--unwind", "4", "--unwindset", "strcasecmp.0:4,conf_replace_value:1,conf_object_cleanup:2,model_set_clear:2,sm_dispose:2,set_clear:2"])
 
